@@ -81,7 +81,16 @@ func c18(w *core.World, rep *core.Report) {
 		r := smt.Solve(pc, smt.Options{Timeout: 2 * time.Second, OnlyFirst: true})
 		return r.Status != "unsat"
 	}
-	RunJobs(w, rep, ContractJobs(w, rep, c18Lemmas))
+	lj := ContractJobs(w, rep, c18Lemmas)
+	for i := range lj {
+		switch lj[i].Fn.Name() {
+		case "verifLemmaPolicyPart", "verifLemmaResult", "verifLemmaMessage":
+			// contents of any length, no list of elements: general
+		default:
+			lj[i].Bounded = true
+		}
+	}
+	RunJobs(w, rep, lj)
 	sym.Feasible = nil
 	w.Cx.MaxPaths = savedPaths
 	w.Cx.Loops = base
